@@ -562,6 +562,29 @@ pub fn generate(seed: u64, cases: usize, max_samples: usize, focus: &str, out: &
         let d: Vec<i32> = (0..4096).map(|t| if t % 8 == 0 { 1 << 22 } else { 0 }).collect();
         let p6 = Pcm { channels: 1, bps: 24, rate: 44100, data: d, family: "dense_impulses" };
         out(run_record("corpus-quotient-sum-2pow32", &c6, &p6, "st", "mem", true));
+        // a Rice parameter ABOVE the sample width is optimal for one partition: 8-bit input, order selection by bit
+        // count, a smooth tone (fixed order >= 2 wins) with a 64-sample full-scale alternating burst
+        {
+            let mut c8 = Cfg::default();
+            c8.order_sel_bitcount = true;
+            c8.use_lpc = false;
+            let d: Vec<i32> = (0..4096)
+                .map(|t| if (2048..2112).contains(&t) { if t % 2 == 0 { 127 } else { -128 } } else { ((t as f64 * std::f64::consts::TAU / 80.0).sin() * 100.0) as i32 })
+                .collect();
+            let p8 = Pcm { channels: 1, bps: 8, rate: 44100, data: d, family: "tone_burst_lowbits" };
+            out(run_record("corpus-c13-param-above-width", &c8, &p8, "st", "mem", true));
+        }
+        // unary runs longer than 2^16 that are EMITTED (still cheaper than verbatim): 24-bit clicks in silence, Rice parameter 0
+        // (quotients 80000 and 139999): every reader of the unary code must take them
+        {
+            let mut c7 = Cfg::default();
+            c7.max_parameter = 0;
+            let mut d = vec![0i32; 4096 + 700];
+            d[1000] = 40000;
+            d[4096 + 300] = -70000;
+            let p7 = Pcm { channels: 1, bps: 24, rate: 44100, data: d, family: "click_in_silence" };
+            out(run_record("corpus-long-unary", &c7, &p7, "st", "mem", true));
+        }
         // F14: LPC prediction error outside the i32 / FLAC residual range (compute_error's final subtraction,
         // encode_signbit(i32::MIN)); explicit samples, so that the cases do not depend on the platform's sin()
         for (name, text) in [
